@@ -228,12 +228,31 @@ def extract_case(ops_file, case_no):
         return [{"error": str(e)}]
 
 
+def extract_schedule(ops_file, line_no):
+    """Scenario header (conc / cshard / cthread / cprefill lines) plus the schedule line `line_no` (1-based)."""
+    try:
+        ops = open(ops_file).read().splitlines()
+        i = line_no - 1
+        start = max(j for j in range(0, i + 1) if ops[j].startswith("conc "))
+        header = [l for l in ops[start:i] if l.split(" ", 1)[0] in ("conc", "cshard", "cthread", "cprefill")]
+        return header + [ops[i]]
+    except Exception as e:
+        return None
+
+
 def attach_case(v):
     m = re.search(r":: case (\d+)", v.get("what", ""))
-    if m and v.get("ops_file"):
+    if m and v.get("ops_file") and not v.get("stream", "").startswith("conc"):
         v = dict(v)
         v["case"] = extract_case(v["ops_file"], int(m.group(1)))
-        v["how_to_replay"] = "write the 'op' lines to a file F and run: harness/target/release/seq file F /tmp/replay && lean/.lake/build/bin/driver < F"
+        v["how_to_replay"] = "bin/check <Cxx> quick --replay <this file>   (or: write the 'op' lines to a file F and run harness/target/release/seq file F <prefix>; lean/.lake/build/bin/driver < F)"
+    m = re.search(r"\(line (\d+)\)\s*$", v.get("what", ""))
+    if m and v.get("ops_file") and v.get("stream", "").startswith("conc"):
+        lines = extract_schedule(v["ops_file"], int(m.group(1)))
+        if lines:
+            v = dict(v)
+            v["case"] = {"lines": lines, "klass": 1 if v["stream"].startswith("conc-arena") else 0}
+            v["how_to_replay"] = "bin/check <Cxx> quick --replay <this file>   (or: write case.lines to a file F and run harness/target/release/conc run F <prefix> 0 <klass>)"
     return v
 
 
